@@ -121,6 +121,12 @@ def run_prop(prop, tier):
         filegen.run_framing_stream(prop, tier, chk, model, bres)
     except ImportError:
         chk.notes.append('whole-file stream not available in this revision')
+    # the label (sequence number, set identifier), file headers and objects changed after a first write, then the same
+    # DLISFile written again: the second file is read by the strict physical reader configured with the *new* label
+    from harness import wholefile as wf
+    for r in wf.rewrite_runs(prop, tier, model, bres, chk, 40, 300):
+        if bres.ok:
+            wf.oracle_readable(r, chk, prop.lower() + '-rewrite')
     return finish(chk, bres, th,
                   partial_note='Theorems are about frameFile/readFile of the Lean model; the tie to the code is the '
                                'correspondence of make_segments, DLISWriter and whole writes with the model.')
